@@ -1906,6 +1906,21 @@ func primRunCollider(id int, s *primShape, rng *rand.Rand, nrays, nballs int) pr
 		k := ri(rng, 0, 3)
 		rays = append(rays, rq{i3add(sp.q, i3scale(d, -4*k)), d, exps[rng.Intn(len(exps))]})
 	}
+	if len(s.data) == 7 && (s.shape == "cyl" || s.shape == "capsule" || s.shape == "cone") {
+		// rays exactly along the shape's own axis direction (both ways), from lattice points and from the axis itself
+		ax := [3]int{s.data[3], s.data[4], s.data[5]}
+		for i := 0; i < 6; i++ {
+			d := ax
+			if i%2 == 1 {
+				d = i3scale(ax, -1)
+			}
+			o := primLatticePoint(rng, mn, mx, s.dim, 2, 2)
+			if i >= 4 {
+				o = i3add([3]int{s.data[0], s.data[1], s.data[2]}, i3scale(d, -8))
+			}
+			rays = append(rays, rq{o, d, exps[rng.Intn(len(exps))]})
+		}
+	}
 	if s.approx > 0 {
 		// sampling colliders: axis-parallel rays through the middle of the bounds, whose path inside a
 		// box is a whole number of sampling steps, with direction lengths k * 2^e (the step count is
